@@ -89,7 +89,8 @@ CHECKS["C19"] = dict(
     level_note="Trusted: the reference middlewares in c19_test.go (5-15 lines each). Timeouts are long enough never to expire; wall-clock is used only for lower bounds (Throttle) and deadline bands.",
     steps=[dict(name="chains", run="^TestChainAgainstReference$", quick=4000, thorough=3000000, shards_thorough=10),
            dict(name="delayseq", run="^TestDelayOnErrorSequence$", quick=2000, thorough=1000000, shards_thorough=2),
-           dict(name="throttle", run="^TestThrottleRate$", quick=150, thorough=40000, shards_thorough=4)],
+           dict(name="throttle", run="^TestThrottleRate$", quick=150, thorough=40000, shards_thorough=4),
+           dict(name="throttle-idle", run="^TestThrottleAfterIdle$", quick=8, thorough=200, shards_thorough=4)],
 )
 
 CHECKS["C20"] = dict(
